@@ -53,6 +53,7 @@ cd /verif
 exec 8>/var/tmp/verif-repo.lock; flock 8
 # the evidence files of the unchanged tree must survive runs against a changed tree
 EVBAK=$(mktemp -d /var/tmp/evidence.bak.XXXXXX); cp -a /verif/evidence/. "$EVBAK/"
+ls /verif/replays > "$EVBAK.replays" 2>/dev/null
 git -C /repo apply "$OUT/patch.diff" || { echo "patch does not apply to /repo"; exit 1; }
 res=""
 CHECKS="$*"; [ -z "$CHECKS" ] && CHECKS="${ID:0:3}"
@@ -63,6 +64,8 @@ for c in $CHECKS; do
 done
 git -C /repo checkout -- .
 cp -a "$EVBAK/." /verif/evidence/; rm -rf "$EVBAK"
+# replay files written by the runs against the changed tree belong to that change, not to /verif/replays
+mkdir -p "$DST/replays"; for f in $(ls /verif/replays | grep -vxFf "$EVBAK.replays"); do mv "/verif/replays/$f" "$DST/replays/"; done; rmdir "$DST/replays" 2>/dev/null; rm -f "$EVBAK.replays"
 flock -u 8
 echo "checks:$res"
 python3 - "$ID" "$with" "$without" "$suite" "$res" <<'PY'
